@@ -104,7 +104,8 @@ type Factory struct {
 func newFactory(impl string, cfg Config) *Factory {
 	wasm, err := watutil.Wat2Wasm("malloc.wat", moduleText(impl, cfg))
 	must(err)
-	rt := wazero.NewRuntime(ctx)
+	// interpreter engine: a call stuck in JIT code cannot be preempted and would block the GC (and with it this process) forever
+	rt := wazero.NewRuntimeWithConfig(ctx, wazero.NewRuntimeConfigInterpreter())
 	b := rt.NewHostModuleBuilder("env")
 	b = b.NewFunctionBuilder().WithFunc(func(ctx context.Context, m api.Module, v int32) {}).Export("print_i32")
 	b = b.NewFunctionBuilder().WithFunc(func(ctx context.Context, m api.Module, v1, v2 int32) {}).Export("print_i32_i32")
@@ -240,7 +241,14 @@ const walkFuel = 4096
 func (h *Heap) list(head int32, ring bool) []int32 {
 	var out []int32
 	nx, _ := h.rd(head + 4)
-	for fuel := walkFuel; fuel > 0; fuel-- {
+	fuel0 := walkFuel
+	if !ring {
+		// a fixed list holds `count` blocks; links beyond that are dead data
+		if cnt, _ := h.rd(head); int(cnt) < fuel0 {
+			fuel0 = int(cnt)
+		}
+	}
+	for fuel := fuel0; fuel > 0; fuel-- {
 		if nx == 0 || (ring && nx == head) {
 			break
 		}
